@@ -176,6 +176,15 @@ bool allParked() {
     return true;
 }
 
+void freezeRole(int r, long steps) {
+    for (int i = 0; i < nth; i++)
+        if (th[i].role == r && th[i].st != DONE) {
+            th[i].frozenUntil = (long)st_.steps + steps;
+            st_.freezesFired++;
+            return;
+        }
+}
+
 bool isBlockedIdle(int tid) {
     if (tid < 0 || tid >= nth) return true;
     St s = th[tid].st;
